@@ -501,6 +501,7 @@ def _run(ck, rng):
     compare_model(ck, c, status, trace, m_it, 'Model iterate ≈ open-loop SCC wrapper')
   ck.extra_cov['openloop'] = {'designs': n, 'flows': ['GenDAGPass+WrapGreenletPass+OpenLoopCLPass']}
   probe_gaps(ck)
+  run_greenlet(ck, rng)
 
 RESET_CYCLES = 3      # sim_reset evaluates the combinational schedule three times (reset = 1, 1, 0) with all driven inputs at 0
 
@@ -519,6 +520,137 @@ def compare_model(ck, c, status, trace, got, what):
     k = next((i for i, (x, y) in enumerate(zip(mt, trace)) if x != y), min(len(mt), len(trace)))
     ck.disagreement(what, dict(c, inputs=c['inputs'][:k + 1]), {'transaction': k, 'model': mt[k] if k < len(mt) else None},
                     {'impl': trace[k] if k < len(trace) else None})
+
+# ---------------------------------------------------------------------------------------------
+# cyclic groups through a greenlet-wrapped block: an `@update_once` block that calls a blocking method of a child
+# (CallerIfcFL -> CalleeIfcFL) is replaced by WrapGreenletPass; a cycle through it must still be REPORTED (update_once in a
+# cycle), and the acyclic twin (back edge cut) must schedule and equal the reference
+# ---------------------------------------------------------------------------------------------
+GL_OPS = {'and': lambda v, b, c: v & c, 'xor': lambda v, b, c: v ^ c, 'shr': lambda v, b, c: v >> 1, 'addb': lambda v, b, c: (v + b) & 0xff,
+          'orb': lambda v, b, c: v | b, 'id': lambda v, b, c: v}
+GL_TXT = {'and': '({v} & {c})', 'xor': '({v} ^ {c})', 'shr': '({v} >> 1)', 'addb': '({v} + s.b)', 'orb': '({v} | s.b)', 'id': '{v}'}
+LUT_OPS = {'id': (lambda v: v, 'v'), 'inc': (lambda v: (v + 1) & 0xff, 'v + 1'), 'flip': (lambda v: v ^ 0x5a, 'v ^ 0x5a')}
+
+def gl_spec(rng):
+  n = rng.randint(2, 4)
+  return {'n': n, 'g': rng.randrange(n), 'ops': [rng.choice(sorted(GL_OPS)) for _ in range(n)], 'consts': [rng.choice([0xf0, 0x0f, 0x3c, 0xff, 0x81]) for _ in range(n)],
+          'lut': rng.choice(sorted(LUT_OPS)), 'pre': rng.choice([0, 0x11, 0xa5]), 'tap': rng.randrange(n), 'order': rng.sample(range(n + 2), n + 2),
+          'two_down': rng.random() < 0.5}
+
+def gl_source(spec, name, cyclic, ol):
+  """wires w0..w{n-1}: w_i = op_i( w_{i-1} ), w_0 reads w_{n-1} (cyclic) or the upstream wire `pre` (twin); block g is the update_once
+  block calling the blocking method; upstream block up_pre (pre = a ^ C), downstream block(s) up_out"""
+  n, g = spec['n'], spec['g']
+  L = ['from pymtl3 import *', 'from pymtl3.dsl import CalleeIfcFL, CallerIfcFL', f'class {name}_Lut( Component ):', '  def construct( s ):',
+       '    s.look = CalleeIfcFL( method=s.look_ )', '  def look_( s, v ):', f'    return {LUT_OPS[spec["lut"]][1]}', '',
+       f'class {name}( Component ):', '  def construct( s ):']
+  port = 'Wire' if ol else 'InPort'
+  L += [f'    s.a = {port}( Bits8 )', f'    s.b = {port}( Bits8 )', '    s.pre = Wire( Bits8 )', '    s.out = OutPort( Bits8 )', '    s.out2 = OutPort( Bits8 )']
+  L += [f'    s.w{i} = Wire( Bits8 )' for i in range(n)]
+  L += [f'    s.lut = {name}_Lut()', '    s.look = CallerIfcFL()', '    s.look //= s.lut.look']
+  blocks = {}
+  blocks[n] = ['    @update', '    def up_pre():', f'      s.pre @= s.a ^ {spec["pre"]}']
+  down = ['    @update', '    def up_out():', f'      s.out @= s.w{spec["tap"]}']
+  down += ['      s.out2 @= s.w0 & s.b'] if not spec['two_down'] else []
+  blocks[n + 1] = down + (['    @update', '    def up_out2():', '      s.out2 @= s.w0 & s.b'] if spec['two_down'] else [])
+  for i in range(n):
+    src_ = f's.w{(i - 1) % n}' if (i > 0 or cyclic) else 's.pre'
+    if i == 0 and cyclic: src_ = f'(s.w{n - 1} | s.pre)'
+    e = GL_TXT[spec['ops'][i]].format(v=src_, c=spec['consts'][i])
+    if i == g: blocks[i] = ['    @update_once', f'    def up_{i}():', f'      s.w{i} @= s.look( {e} )']
+    else: blocks[i] = ['    @update', f'    def up_{i}():', f'      s.w{i} @= {e}']
+  for k in spec['order']: L += blocks[k]
+  if ol:
+    L += ['    s.pv_a = Bits8()', '    s.pv_b = Bits8()', '    @update', '    def pv_drive():', '      s.a @= s.pv_a', '      s.b @= s.pv_b']
+    # pv_pull is ordered behind a plain block that reads every signal (NOT by U( up_i ) < M( s.pv_pull ): WrapGreenletPass leaves
+    # top_level_callee_constraints keyed by the original block, so OpenLoopCLPass drops such a constraint for the wrapped block)
+    reads = ['s.pre', 's.out', 's.out2'] + [f's.w{i}' for i in range(n)]
+    L += ['    s.pv_seen = 0', '    @update', '    def pv_sink():', '      s.pv_seen = ( ' + ', '.join(reads) + ', )']
+    L += ['    s.add_constraints( M( s.pv_push ) < U( pv_drive ), U( pv_sink ) < M( s.pv_pull ) )']
+    L += ['  @method_port', '  def pv_push( s, a, b ):', '    s.pv_a = a', '    s.pv_b = b', '  @method_port', '  def pv_pull( s ):', '    return 0']
+  return '\n'.join(L) + '\n'
+
+def gl_ref(spec, a, b):
+  """values of the acyclic twin: (pre, w0.., out, out2)"""
+  pre = a ^ spec['pre']
+  w, v = [], pre
+  for i in range(spec['n']):
+    v = GL_OPS[spec['ops'][i]](v, b, spec['consts'][i]) & 0xff
+    if i == spec['g']: v = LUT_OPS[spec['lut']][0](v) & 0xff
+    w.append(v)
+  return [pre] + w + [w[spec['tap']], w[0] & b]
+
+def gl_case(ck, case, verbose=False):
+  """one (spec, variant, flow): returns the outcome; violations are reported here"""
+  from pymtl3.datatypes import Bits8
+  from pymtl3.dsl.errors import UpblkCyclicError
+  spec, flow, cyclic = case['spec'], case['flow'], case['cyclic']
+  cls, _ = load_text(ck.workdir, case['source'], case['cls'])
+  sig = {'flow': flow, 'family': 'greenlet'}
+  rtlgen.quiet_dump_dag()
+  state = _random.getstate()
+  try:
+    try:
+      if flow == 'openloop': top = apply_openloop(cls, case['seed'])
+      else:
+        from pymtl3.passes.PassGroups import DefaultPassGroup
+        from pymtl3.passes.mamba.PassGroups import Mamba2020
+        top = cls(); top.elaborate()
+        top.apply(DefaultPassGroup() if flow == 'default' else Mamba2020(print_line_trace=False))
+      outcome = 'scheduled'
+    except UpblkCyclicError: outcome = 'UpblkCyclicError'
+    except Exception as e: outcome = f'{type(e).__name__}: {str(e)[:200]}'
+  finally: _random.setstate(state)
+  if verbose: print(f'{flow}, {"cyclic" if cyclic else "acyclic twin"}: {outcome}')
+  if outcome != 'scheduled':
+    if not cyclic:
+      ck.violation('pass-group-failed-on-acyclic-design', sig, case, {'outcome': outcome, 'oracle': 'the twin without the back edge is acyclic: it must be scheduled'})
+    elif outcome != 'UpblkCyclicError':
+      ck.violation('pass-group-failed-on-cyclic-design', sig, case, {'outcome': outcome, 'oracle': 'a cycle containing an update_once block is reported with UpblkCyclicError'})
+    return outcome
+  names = ['pre'] + [f'w{i}' for i in range(spec['n'])] + ['out', 'out2']
+  snap = lambda: [int(getattr(top, nm)) for nm in names]
+  blks = [b for b in top._dag.final_upblks if b not in top.get_all_update_ff()]
+  rows, unstable, wrong = [], None, None
+  try:
+    top.sim_reset()
+    for (a, b) in case['inputs']:
+      if flow == 'openloop': top.pv_push(Bits8(a), Bits8(b)); top.pv_pull()
+      else: top.a @= a; top.b @= b; top.sim_tick()          # sim_eval_combinational refuses designs with method ports
+      v = snap(); rows.append(v)
+      for blk in blks:
+        blk()
+        if snap() != v and unstable is None: unstable = {'inputs': (a, b), 'block': blk.__name__, 'before': v, 'after': snap(), 'signals': names}
+      if not cyclic and wrong is None and v != gl_ref(spec, a, b): wrong = {'inputs': (a, b), 'impl': v, 'ref': gl_ref(spec, a, b), 'signals': names}
+      if unstable: break
+  except UpblkCyclicError:
+    rows.append('UpblkCyclicError at run time')
+    if not cyclic: ck.violation('convergent-loop-rejected', sig, case, {'rows': rows})
+  if verbose: print('  values', names, rows[:4], '| unstable:', unstable, '| wrong:', wrong)
+  if cyclic:
+    ck.violation('update_once-in-cycle-accepted', sig, case,
+                 {'outcome': 'scheduled', 'values': rows[:4], 'unstable_state': unstable,
+                  'oracle': f'block up_{spec["g"]} is an @update_once block (calls a blocking method, wrapped by WrapGreenletPass) inside a cyclic group: UpblkCyclicError must be raised'})
+  else:
+    if unstable: ck.violation('returned-unstable-state', sig, case, dict(unstable, oracle='re-running an update block changes nothing'))
+    if wrong: ck.violation('acyclic-twin-differs-from-reference', sig, case, dict(wrong, oracle='values of the chain evaluated in dependency order'))
+  return outcome
+
+def run_greenlet(ck, rng):
+  n = 10 if ck.tier == 'quick' else 150
+  for _ in range(n):
+    spec = gl_spec(rng)
+    inputs = [(rng.getrandbits(8), rng.getrandbits(8)) for _ in range(4)]
+    for cyclic in (True, False):
+      for flow in ('default', 'mamba', 'openloop'):
+        _mods[0] += 1
+        name = f'GL{_mods[0]}'
+        case = {'openloop_greenlet': True, 'spec': spec, 'flow': flow, 'cyclic': cyclic, 'cls': name, 'seed': rng.getrandbits(30), 'inputs': inputs,
+                'source': gl_source(spec, name, cyclic, flow == 'openloop')}
+        ck.count({'greenlet': spec, 'flow': flow, 'cyclic': cyclic}, True)
+        out = gl_case(ck, case)
+        ck.hist('greenlet_' + ('cyclic' if cyclic else 'twin'), out.split(':')[0])
+  ck.extra_cov['greenlet_in_cycle'] = {'specs': n, 'flows': ['default', 'mamba', 'openloop'], 'variants': ['cyclic', 'acyclic twin']}
 
 # ---------------------------------------------------------------------------------------------
 # two gaps of OpenLoopCLPass found on the pinned tree and repaired in /repo (fix: update_once in a cycle / explicit-constraint cycle);
@@ -588,6 +720,10 @@ def replay(ck, data):
   """re-run a recorded open-loop case on the real code with the direct oracle (a); print the wrapper and its IR verdict"""
   case = data.get('case') or {}
   print(data.get('kind'), data.get('signature')); print(str(data.get('detail'))[:1500])
+  if case.get('openloop_greenlet'):
+    n0 = len(ck.violations); print(case['source']); gl_case(ck, case, verbose=True)
+    for v in ck.violations[n0:]: print('VIOLATION', v.kind, v.signature, str(v.detail)[:800])
+    return 1 if len(ck.violations) > n0 else 0
   if case.get('openloop_gap'):
     n0 = len(ck.violations); os.environ['PV_C11_OPENLOOP_STRICT'] = '1'; probe_gaps(ck)
     return 1 if len(ck.violations) > n0 else 0
